@@ -561,6 +561,13 @@ class run_auth_scripts_c:
         return embedder_ok(cache_vals, contracts, plugins) + registries_ok(G_plugins) + [
             ('limits', stack_max_items >= 1 and stack_max_item_size >= 1 and callstack_limit >= 1)]
 
+    # C19: every script of the list runs with exactly the active extensions: the registry contents
+    # overlaid with the caller's arguments (as run_script's contract states for the first script)
+    def site_run_tape(callee, arg_plugins, arg_contracts, G_plugins, G_contracts):
+        return [('registry.plugins', dict_same(callee.tape.plugins, {**G_plugins, **arg_plugins})),
+                ('registry.contracts', dict_same(callee.tape.contracts, {**G_contracts, **arg_contracts}))]
+    sites = {'run_tape': site_run_tape}
+
     def ensures(old, scripts, result, raised, item, stack):
         return [
             ('never-raises', raised is None),
